@@ -334,8 +334,14 @@ func c19Enc(in c19Input, m map[string]interface{}) (b []byte, err error) {
 	case "xmlindent":
 		return mv.XmlIndent(in.Prefix, in.Indent)
 	case "json":
+		if in.Safe {
+			return mv.Json(true)
+		}
 		return mv.Json()
 	default:
+		if in.Safe {
+			return mv.JsonIndent(in.Prefix, in.Indent, true)
+		}
 		return mv.JsonIndent(in.Prefix, in.Indent)
 	}
 }
@@ -651,6 +657,11 @@ func (e *c19Env) fileScenario(in c19Input) bool {
 			for i := range expected {
 				if canon(o.Maps[i]) != canon(expected[i]) {
 					e.violation(knownKey("roundtrip-map-differs"), fmt.Sprintf("%s: Map %d differs from the Map its own encoding decodes to / the original", what, i), in, o.text(), wantText)
+					break
+				}
+				if !reflect.DeepEqual(o.Maps[i], expected[i]) {
+					e.violation(knownKey("roundtrip-deepequal-differs"), fmt.Sprintf("%s: Map %d is not reflect.DeepEqual to the Map its own encoding decodes to / the original", what, i), in,
+						fmt.Sprintf("%#v", o.Maps[i]), fmt.Sprintf("%#v", expected[i]))
 					break
 				}
 			}
@@ -994,6 +1005,27 @@ func (e *c19Env) unreadable(in c19Input) {
 
 // ---------------------------------------------------------------- gob, Copy, Json
 
+func c19HasEmptyList(v interface{}) bool {
+	switch x := v.(type) {
+	case map[string]interface{}:
+		for _, e := range x {
+			if c19HasEmptyList(e) {
+				return true
+			}
+		}
+	case []interface{}:
+		if len(x) == 0 {
+			return true
+		}
+		for _, e := range x {
+			if c19HasEmptyList(e) {
+				return true
+			}
+		}
+	}
+	return false
+}
+
 func c19Nested(m map[string]interface{}) bool {
 	for _, v := range m {
 		switch v.(type) {
@@ -1034,9 +1066,6 @@ func (e *c19Env) gobCase(in c19Input, m map[string]interface{}) {
 	e.say("%s", impl)
 	e.oracle()
 	key := "gob-roundtrip"
-	if c19Nested(m) {
-		key = "gob-nested-unregistered"
-	}
 	switch {
 	case panicked != "":
 		e.violation("gob-panic", "Gob/NewMapGob panicked", in, panicked, orig)
@@ -1046,6 +1075,13 @@ func (e *c19Env) gobCase(in c19Input, m map[string]interface{}) {
 		e.violation(key, "NewMapGob(Gob(m)) is not deeply equal to m", in, impl, orig)
 	case canon(m) != orig:
 		e.violation("gob-mutates", "Gob changed its receiver", in, canon(m), orig)
+	case !reflect.DeepEqual(m, map[string]interface{}(back)):
+		// same entries, same dynamic types, yet not reflect.DeepEqual: an empty slice came back as a nil slice
+		key = "gob-deepequal-differs"
+		if c19HasEmptyList(m) {
+			key = "gob-empty-list-becomes-nil"
+		}
+		e.violation(key, "NewMapGob(Gob(m)) is not reflect.DeepEqual to m", in, fmt.Sprintf("%#v", map[string]interface{}(back)), fmt.Sprintf("%#v", m))
 	}
 }
 
@@ -1155,6 +1191,8 @@ func (e *c19Env) copyCase(in c19Input, m map[string]interface{}) {
 		e.violation(key, "Copy returns an error for a Map of JSON types", in, cerr.Error(), orig)
 	case canon(map[string]interface{}(cp)) != orig:
 		e.violation(key, "Copy is not deeply equal to the original", in, canon(map[string]interface{}(cp)), orig)
+	case !reflect.DeepEqual(m, map[string]interface{}(cp)):
+		e.violation("copy-deepequal-differs", "Copy is not reflect.DeepEqual to the original", in, fmt.Sprintf("%#v", map[string]interface{}(cp)), fmt.Sprintf("%#v", m))
 	default:
 		oc, cc := map[uintptr]bool{}, map[uintptr]bool{}
 		c19Containers(m, oc)
@@ -1209,8 +1247,8 @@ func (r *Rng) c19Scenario() c19Input {
 	for i := 0; i < n; i++ {
 		in.Maps = append(in.Maps, r.c19Map(0, true))
 	}
-	// the safeEncoding argument is passed where it cannot change the bytes (Maps.JsonString ignores it: C16)
-	in.Safe = r.chance(0.3) && !c19HasHTML(in.Maps)
+	// the safeEncoding argument is passed on to Json/JsonIndent (fix da6537e)
+	in.Safe = r.chance(0.3)
 	return in
 }
 
@@ -1344,25 +1382,11 @@ func runC19(cfg runCfg) error {
 				e.scanCase(in, content)
 			}
 		}
-		// gob and Copy on the Maps of the scenario (and on a flat projection, so that the positive path of gob is exercised)
+		// gob and Copy on the Maps of the scenario
 		if ms, ok := e.mapsUnder(in); ok {
 			for _, m := range ms {
 				gin := c19Input{Kind: "gob", Maps: []map[string]interface{}{m}}
-				if in.isXML() {
-					// XML-domain Maps hold strings only; they are replayed as JSON-domain Maps
-				}
 				e.gobCase(gin, deepCopy(m).(map[string]interface{}))
-				flat := map[string]interface{}{}
-				for k, v := range m {
-					switch v.(type) {
-					case map[string]interface{}, []interface{}:
-					default:
-						flat[k] = v
-					}
-				}
-				if len(flat) != len(m) {
-					e.gobCase(c19Input{Kind: "gob", Maps: []map[string]interface{}{flat}}, deepCopy(flat).(map[string]interface{}))
-				}
 				e.copyCase(c19Input{Kind: "copy", Maps: []map[string]interface{}{m}}, deepCopy(m).(map[string]interface{}))
 			}
 		}
